@@ -515,7 +515,8 @@ void verif::verif_case(Rng & rng, long idx, const std::string & tier) {
     case 4: { auto q = genQ(rng, n); auto qv = toVec(q); double e = kEps[rng.below(6)];
               int w = (int)rng.below(3);
               if (w == 0) { B::QGreedyPolicy g(qv); emit_eps_bandit("Bandit::EpsilonPolicy", g, e, ns); }
-              else if (w == 1) { B::QSoftmaxPolicy g(qv, 1.0); emit_eps_bandit("Bandit::EpsilonPolicy", g, e, ns); }
+              else if (w == 1) { for (long i = 0; i < qv.size(); ++i) while (std::fabs(qv[i]) > 8.0) qv[i] /= 2;   // keep the wrapped softmax out of its small-sum regime (reported on its own lines)
+                                 B::QSoftmaxPolicy g(qv, 1.0); emit_eps_bandit("Bandit::EpsilonPolicy", g, e, ns); }
               else { B::RandomPolicy g(n); emit_eps_bandit("Bandit::EpsilonPolicy", g, e, ns); }
               break; }
     case 5: { M::QFunction Q(S, n); for (size_t s = 0; s < S; ++s) fillRow(rng, Q, s); emit_eps_mdp(Q, kEps[rng.below(6)], ns); break; }
